@@ -106,6 +106,7 @@ func checkC04(e *Env, r *Report) {
 		return
 	}
 	origSrc := e.Src
+	nRefused := 0
 	gather := func(srcDir string, cfgs []Cfg, tag string) ([]any, int, error) {
 		e.Src = srcDir
 		defer func() { e.Src = origSrc }()
@@ -134,6 +135,10 @@ func checkC04(e *Env, r *Report) {
 			b := e.RunPrebuild(c, BuildOpts{Src: srcDir, Tag: "c04" + tag, Listing: true, NoCache: true, PreRun: pre})
 			defer b.Drop()
 			if b.Err != nil {
+				if strings.HasPrefix(tag, "clash:") {
+					nRefused++ // two sources want one output name: a build that refuses is right, and nothing is judged
+					return
+				}
 				errs[i] = b.Err
 				return
 			}
@@ -203,6 +208,29 @@ func checkC04(e *Env, r *Report) {
 	}
 	all = append(all, vall...)
 	r.Coverage["variant_tree_configs"] = len(vcfgs)
+	// a second variant: a file of the full-system-policy group has the name of a regular profile. In a --full build
+	// the two want one output name: the build may refuse; if it goes through, one of them is lost (Prepare!Clashes)
+	{
+		cdir := filepath.Join(e.Scratch, "src-c04-clash")
+		if out, err := execCmd("cp", "-a", origSrc, cdir); err != nil {
+			r.Fatal = fmt.Sprintf("copy source: %v %s", err, out)
+			return
+		}
+		clash := "abi <abi/4.0>,\n\ninclude <tunables/global>\n\nprofile aa-log flags=(attach_disconnected) {\n  include <abstractions/base>\n\n  /etc/fsp r,\n\n  include if exists <local/aa-log>\n}\n"
+		if err := os.WriteFile(filepath.Join(cdir, "apparmor.d", "groups", "_full", "aa-log"), []byte(clash), 0o644); err != nil {
+			r.Fatal = err.Error()
+			return
+		}
+		ccfgs := []Cfg{{"arch", 4, "4.1", "none", true}, {"debian", 3, "3.0", "none", true}}
+		call, _, err := gather(cdir, ccfgs, "clash:")
+		if err != nil {
+			r.Fatal = err.Error()
+			return
+		}
+		all = append(all, call...)
+		r.Coverage["clash_tree_builds_refused"] = nRefused
+		r.Coverage["clash_tree_builds_judged"] = len(ccfgs) - nRefused
+	}
 	src := make([]struct{}, nsrc)
 	r.Coverage["configs"] = len(cfgs)
 	r.Coverage["source_entries"] = len(src)
